@@ -10,8 +10,8 @@ use crate::sx::*;
 use easy_ml::differentiation::RecordMatrix;
 use easy_ml::interop::{MatrixRefTensor, TensorRefMatrix};
 use easy_ml::matrices::views::{
-    IndexRange, MatrixMut, MatrixPart, MatrixRange, MatrixRef, MatrixReverse, MatrixView, NoInteriorMutability,
-    Reverse,
+    DataLayout, IndexRange, MatrixMut, MatrixPart, MatrixRange, MatrixRef, MatrixReverse, MatrixView,
+    NoInteriorMutability, Reverse,
 };
 use easy_ml::matrices::Matrix;
 use easy_ml::tensors::views::TensorRef;
@@ -300,6 +300,40 @@ fn iterate<S: MatrixMut<i64> + NoInteriorMutability>(view: &mut MatrixView<i64, 
     Ok(rm.into_iter().map(|x| l(vec![z(x)])).collect())
 }
 
+fn layout_code(l: Option<DataLayout>) -> i64 {
+    match l {
+        Some(DataLayout::RowMajor) => 0,
+        Some(DataLayout::ColumnMajor) => 1,
+        Some(DataLayout::Other) => 2,
+        None => 3,
+    }
+}
+
+/// data_layout() of the view itself (MatrixView's method and its source's must agree) and as
+/// answered through the `&S` / `&mut S` implementations of MatrixRef (which must agree).
+fn layouts<S: MatrixMut<i64> + NoInteriorMutability>(view: &mut MatrixView<i64, S>) -> Result<Sx, i64> {
+    let own = layout_code(guarded(|| view.data_layout()));
+    if layout_code(guarded(|| view.source_ref().data_layout())) != own {
+        return Err(1226);
+    }
+    let shared = layout_code(guarded(|| {
+        let r: &S = view.source_ref();
+        <&S as MatrixRef<i64>>::data_layout(&r)
+    }));
+    let exclusive = layout_code(guarded(|| {
+        let r: &mut S = view.source_ref_mut();
+        <&mut S as MatrixRef<i64>>::data_layout(&r)
+    }));
+    if shared != exclusive {
+        return Err(1227);
+    }
+    // a view over a reference to the source answers like the reference
+    if layout_code(guarded(|| MatrixView::from(view.source_ref()).data_layout())) != shared {
+        return Err(1228);
+    }
+    Ok(l(vec![z(own), z(shared)]))
+}
+
 /// form 0: set, 1: try_get_reference_mut, 2: get_reference_mut, 3: unchecked (present cells only)
 fn write_through<S: MatrixMut<i64> + NoInteriorMutability>(view: &mut MatrixView<i64, S>, form: usize, r: usize, c: usize, x: i64) -> bool {
     match form {
@@ -423,16 +457,17 @@ fn view_case(args: &[Sx]) -> Sx {
 
     // reads
     let mut m = m0.clone();
-    let reads = with_stack(&mut m, &lf, &ws, |view| -> Result<(Sx, Vec<Sx>, Vec<Sx>), i64> {
+    let reads = with_stack(&mut m, &lf, &ws, |view| -> Result<(Sx, Vec<Sx>, Vec<Sx>, Sx), i64> {
         let (rows, columns) = view.size();
         let mut ps = vec![];
         for &(r, c) in &probes {
             ps.push(probe_sx(probe(view, r, c)?));
         }
         let it = iterate(view)?;
-        Ok((l(vec![z(rows), z(columns)]), ps, it))
+        let lay = layouts(view)?;
+        Ok((l(vec![z(rows), z(columns)]), ps, it, lay))
     });
-    let (size, ps, it) = match reads {
+    let (size, ps, it, lay) = match reads {
         Err(r) => return refused_sx(r),
         Ok(Err(code)) => return inconsistent(code),
         Ok(Ok(x)) => x,
@@ -474,12 +509,23 @@ fn view_case(args: &[Sx]) -> Sx {
             for &(r, c) in &probes {
                 ps2.push(probe(&mut view, r, c).map(probe_sx));
             }
-            (view.size(), ps2)
+            let lay2 = layouts(&mut view);
+            // the whole stack once more behind Box<S> and the crate's Box<dyn MatrixRef<T>>: same hint
+            let sz = view.size();
+            let boxed_view = MatrixView::from(Box::new(view.source()));
+            let box_layout = layout_code(guarded(|| boxed_view.data_layout()));
+            let dyn_ref: Box<dyn MatrixRef<i64>> = boxed_view.source();
+            let dyn_layout = layout_code(guarded(|| MatrixView::from(dyn_ref).data_layout()));
+            (sz, ps2, lay2, box_layout, dyn_layout)
         });
         match other {
-            Ok((sz, ps2)) => {
+            Ok((sz, ps2, lay2, box_layout, dyn_layout)) => {
                 if l(vec![z(sz.0), z(sz.1)]) != size || ps2.iter().zip(ps.iter()).any(|(a, b)| a.as_ref().ok() != Some(b)) {
                     return inconsistent(1231);
+                }
+                let own = lay.list().and_then(|v| v.first()).and_then(|x| x.i64());
+                if lay2.as_ref().ok() != Some(&lay) || Some(box_layout) != own || Some(dyn_layout) != own {
+                    return inconsistent(1233);
                 }
             }
             Err(_) => return inconsistent(1232),
@@ -511,7 +557,7 @@ fn view_case(args: &[Sx]) -> Sx {
         }
     }
     let (flags, after) = canonical.unwrap();
-    ok(l(vec![size, l(ps), l(it), l(flags.into_iter().map(|b| z(if b { 0 } else { 2 })).collect()), after]))
+    ok(l(vec![size, l(ps), l(it), l(flags.into_iter().map(|b| z(if b { 0 } else { 2 })).collect()), after, lay]))
 }
 
 /// A stack over MatrixRefTensor::from(a 2-dimensional tensor view built by the C02 interpreter);
@@ -567,16 +613,17 @@ fn tensor_view_case(args: &[Sx]) -> Sx {
     ) else {
         return bad_case();
     };
-    let reads = with_tensor_stack(term, &ws, |view| -> Result<(Sx, Vec<Sx>, Vec<Sx>), i64> {
+    let reads = with_tensor_stack(term, &ws, |view| -> Result<(Sx, Vec<Sx>, Vec<Sx>, Sx), i64> {
         let (rows, columns) = view.size();
         let mut ps = vec![];
         for &(r, c) in &probes {
             ps.push(probe_sx(probe(view, r, c)?));
         }
         let it = iterate(view)?;
-        Ok((l(vec![z(rows), z(columns)]), ps, it))
+        let lay = layouts(view)?;
+        Ok((l(vec![z(rows), z(columns)]), ps, it, lay))
     });
-    let (size, ps, it) = match reads {
+    let (size, ps, it, lay) = match reads {
         Err(r) => return refused_sx(r),
         Ok((Err(code), _)) => return inconsistent(code),
         Ok((Ok(x), _)) => x,
@@ -603,7 +650,7 @@ fn tensor_view_case(args: &[Sx]) -> Sx {
         }
     }
     let (flags, after) = canonical.unwrap();
-    ok(l(vec![size, l(ps), l(it), l(flags.into_iter().map(|b| z(if b { 0 } else { 2 })).collect()), after]))
+    ok(l(vec![size, l(ps), l(it), l(flags.into_iter().map(|b| z(if b { 0 } else { 2 })).collect()), after, lay]))
 }
 
 fn part_listing(part: &mut MatrixView<i64, MatrixPart<i64>>) -> Result<Sx, i64> {
